@@ -1,0 +1,300 @@
+//! Verification seams (only compiled with `--cfg mrecordlog_verif`).
+//!
+//! Nothing here changes behaviour unless a backend is installed for the current
+//! thread: without one every call forwards to `std::fs` / `std::time`.
+use std::cell::{Cell, RefCell};
+use std::ffi::OsString;
+use std::hash::{BuildHasher, Hasher};
+use std::io::{self, SeekFrom};
+use std::path::{Path, PathBuf};
+use std::time::Duration;
+
+#[derive(Clone, Copy, Debug, PartialEq, Eq)]
+pub enum EntryKind {
+    File,
+    Dir,
+    Symlink,
+    Other,
+}
+
+#[derive(Clone, Copy, Debug, Default)]
+pub struct OpenFlags {
+    pub read: bool,
+    pub write: bool,
+    pub create_new: bool,
+}
+
+/// The file-system surface used by `rolling/directory.rs`.
+pub trait VerifFs {
+    fn read_dir(&mut self, path: &Path) -> io::Result<Vec<io::Result<OsString>>>;
+    fn file_type(&mut self, dir: &Path, name: &OsString) -> io::Result<EntryKind>;
+    fn open(&mut self, path: &Path, flags: OpenFlags) -> io::Result<u64>;
+    fn set_len(&mut self, handle: u64, len: u64) -> io::Result<()>;
+    fn seek(&mut self, handle: u64, pos: SeekFrom) -> io::Result<u64>;
+    fn read(&mut self, handle: u64, buf: &mut [u8]) -> io::Result<usize>;
+    fn write(&mut self, handle: u64, buf: &[u8]) -> io::Result<usize>;
+    fn sync_data(&mut self, handle: u64) -> io::Result<()>;
+    fn close(&mut self, handle: u64);
+    fn remove_file(&mut self, path: &Path) -> io::Result<()>;
+}
+
+thread_local! {
+    static BACKEND: RefCell<Option<Box<dyn VerifFs>>> = const { RefCell::new(None) };
+    static CLOCK_NANOS: Cell<Option<u64>> = const { Cell::new(None) };
+    static HASH_SEED: Cell<u64> = const { Cell::new(0) };
+    static BUFWRITER_CAPACITY: Cell<Option<usize>> = const { Cell::new(None) };
+}
+
+/// Installs (or removes) the file-system backend of the current thread.
+pub fn install_fs(backend: Option<Box<dyn VerifFs>>) -> Option<Box<dyn VerifFs>> {
+    BACKEND.with(|slot| std::mem::replace(&mut *slot.borrow_mut(), backend))
+}
+
+/// Sets the simulated monotonic clock of the current thread (`None`: real clock).
+pub fn set_clock_nanos(nanos: Option<u64>) {
+    CLOCK_NANOS.with(|clock| clock.set(nanos));
+}
+
+/// Seed of every `DetBuildHasher` created afterwards on the current thread.
+pub fn set_hash_seed(seed: u64) {
+    HASH_SEED.with(|cell| cell.set(seed));
+}
+
+/// Capacity of the `BufWriter` in front of WAL files (`None`: the crate's default).
+pub fn set_bufwriter_capacity(capacity: Option<usize>) {
+    BUFWRITER_CAPACITY.with(|cell| cell.set(capacity));
+}
+
+pub(crate) fn bufwriter_capacity(default: usize) -> usize {
+    BUFWRITER_CAPACITY.with(|cell| cell.get()).unwrap_or(default)
+}
+
+fn with_backend<T>(f: impl FnOnce(&mut dyn VerifFs) -> T) -> Option<T> {
+    BACKEND.with(|slot| {
+        let mut slot = slot.borrow_mut();
+        slot.as_mut().map(|backend| f(backend.as_mut()))
+    })
+}
+
+fn has_backend() -> bool {
+    BACKEND.with(|slot| slot.borrow().is_some())
+}
+
+pub mod fs {
+    use super::*;
+
+    pub enum File {
+        Std(std::fs::File),
+        Sim(u64),
+    }
+
+    impl File {
+        pub fn set_len(&self, len: u64) -> io::Result<()> {
+            match self {
+                File::Std(file) => file.set_len(len),
+                File::Sim(handle) => with_backend(|fs| fs.set_len(*handle, len)).unwrap(),
+            }
+        }
+
+        pub fn sync_data(&self) -> io::Result<()> {
+            match self {
+                File::Std(file) => file.sync_data(),
+                File::Sim(handle) => with_backend(|fs| fs.sync_data(*handle)).unwrap(),
+            }
+        }
+    }
+
+    impl Drop for File {
+        fn drop(&mut self) {
+            if let File::Sim(handle) = self {
+                let _ = with_backend(|fs| fs.close(*handle));
+            }
+        }
+    }
+
+    impl io::Read for File {
+        fn read(&mut self, buf: &mut [u8]) -> io::Result<usize> {
+            match self {
+                File::Std(file) => file.read(buf),
+                File::Sim(handle) => with_backend(|fs| fs.read(*handle, buf)).unwrap(),
+            }
+        }
+    }
+
+    impl io::Write for File {
+        fn write(&mut self, buf: &[u8]) -> io::Result<usize> {
+            match self {
+                File::Std(file) => file.write(buf),
+                File::Sim(handle) => with_backend(|fs| fs.write(*handle, buf)).unwrap(),
+            }
+        }
+
+        fn flush(&mut self) -> io::Result<()> {
+            match self {
+                File::Std(file) => file.flush(),
+                // as for std::fs::File, there is no user-space buffer to flush.
+                File::Sim(_) => Ok(()),
+            }
+        }
+    }
+
+    impl io::Seek for File {
+        fn seek(&mut self, pos: SeekFrom) -> io::Result<u64> {
+            match self {
+                File::Std(file) => file.seek(pos),
+                File::Sim(handle) => with_backend(|fs| fs.seek(*handle, pos)).unwrap(),
+            }
+        }
+    }
+
+    #[derive(Default)]
+    pub struct OpenOptions {
+        flags: OpenFlags,
+    }
+
+    impl OpenOptions {
+        pub fn new() -> Self {
+            OpenOptions::default()
+        }
+
+        pub fn read(&mut self, read: bool) -> &mut Self {
+            self.flags.read = read;
+            self
+        }
+
+        pub fn write(&mut self, write: bool) -> &mut Self {
+            self.flags.write = write;
+            self
+        }
+
+        pub fn create_new(&mut self, create_new: bool) -> &mut Self {
+            self.flags.create_new = create_new;
+            self
+        }
+
+        pub fn open<P: AsRef<Path>>(&self, path: P) -> io::Result<File> {
+            let flags = self.flags;
+            if let Some(res) = with_backend(|fs| fs.open(path.as_ref(), flags)) {
+                return res.map(File::Sim);
+            }
+            std::fs::OpenOptions::new()
+                .read(flags.read)
+                .write(flags.write)
+                .create_new(flags.create_new)
+                .open(path)
+                .map(File::Std)
+        }
+    }
+
+    pub struct FileType(EntryKind);
+
+    impl FileType {
+        pub fn is_file(&self) -> bool {
+            self.0 == EntryKind::File
+        }
+    }
+
+    pub enum DirEntry {
+        Std(std::fs::DirEntry),
+        Sim { dir: PathBuf, name: OsString },
+    }
+
+    impl DirEntry {
+        pub fn file_type(&self) -> io::Result<FileType> {
+            match self {
+                DirEntry::Std(entry) => {
+                    let file_type = entry.file_type()?;
+                    let kind = if file_type.is_file() {
+                        EntryKind::File
+                    } else if file_type.is_dir() {
+                        EntryKind::Dir
+                    } else if file_type.is_symlink() {
+                        EntryKind::Symlink
+                    } else {
+                        EntryKind::Other
+                    };
+                    Ok(FileType(kind))
+                }
+                DirEntry::Sim { dir, name } => with_backend(|fs| fs.file_type(dir, name))
+                    .unwrap()
+                    .map(FileType),
+            }
+        }
+
+        pub fn file_name(&self) -> OsString {
+            match self {
+                DirEntry::Std(entry) => entry.file_name(),
+                DirEntry::Sim { name, .. } => name.clone(),
+            }
+        }
+    }
+
+    pub fn read_dir(path: &Path) -> io::Result<Box<dyn Iterator<Item = io::Result<DirEntry>>>> {
+        if has_backend() {
+            let entries = with_backend(|fs| fs.read_dir(path)).unwrap()?;
+            let dir = path.to_path_buf();
+            return Ok(Box::new(entries.into_iter().map(move |entry| {
+                entry.map(|name| DirEntry::Sim {
+                    dir: dir.clone(),
+                    name,
+                })
+            })));
+        }
+        let read_dir = std::fs::read_dir(path)?;
+        Ok(Box::new(read_dir.map(|entry| entry.map(DirEntry::Std))))
+    }
+
+    pub fn remove_file(path: &Path) -> io::Result<()> {
+        if let Some(res) = with_backend(|fs| fs.remove_file(path)) {
+            return res;
+        }
+        std::fs::remove_file(path)
+    }
+}
+
+/// Monotonic clock: the simulated one when set, `std::time::Instant` otherwise.
+#[derive(Clone, Copy, Debug, PartialEq, Eq, PartialOrd, Ord)]
+pub struct Instant(Duration);
+
+impl Instant {
+    pub fn now() -> Instant {
+        if let Some(nanos) = CLOCK_NANOS.with(|clock| clock.get()) {
+            return Instant(Duration::from_nanos(nanos));
+        }
+        static EPOCH: std::sync::OnceLock<std::time::Instant> = std::sync::OnceLock::new();
+        let epoch = *EPOCH.get_or_init(std::time::Instant::now);
+        Instant(epoch.elapsed())
+    }
+}
+
+impl std::ops::Add<Duration> for Instant {
+    type Output = Instant;
+
+    fn add(self, rhs: Duration) -> Instant {
+        Instant(self.0 + rhs)
+    }
+}
+
+/// `BuildHasher` whose key is the thread's hash seed at creation time.
+#[derive(Clone)]
+pub struct DetBuildHasher {
+    seed: u64,
+}
+
+impl Default for DetBuildHasher {
+    fn default() -> Self {
+        DetBuildHasher {
+            seed: HASH_SEED.with(|cell| cell.get()),
+        }
+    }
+}
+
+impl BuildHasher for DetBuildHasher {
+    type Hasher = std::collections::hash_map::DefaultHasher;
+
+    fn build_hasher(&self) -> Self::Hasher {
+        let mut hasher = std::collections::hash_map::DefaultHasher::new();
+        hasher.write_u64(self.seed);
+        hasher
+    }
+}
